@@ -1,5 +1,6 @@
 """C04 correspondence: real ribs.schedulers.Scheduler (spy emitters on the public EmitterBase, spy archives as public
 subclasses of GridArchive / ProximityArchive) vs the extracted Scheduler model, on random call programs."""
+import py2v_proto
 import copy
 import json
 import os
@@ -12,8 +13,11 @@ import c04_util as U
 
 CONFIG = {
     "cone": ["Base/ListUtil.v", "Base/SliceUtil.v", "Model/Store.v", "Model/Scheduler.v", "Proofs/SchedulerProofs.v",
-             "Properties/C04.v"],
-    "trusted": ["Model/Scheduler.v abstracts emitters (scripted answers, recorded arguments) and archives (list of accepted "
+             "Generated/ProtoGen.v", "Refine/ProtoRefine.v", "Properties/C04.v"],
+    "extra_property_files": ["Refine/ProtoRefine.v"],
+    "trusted": ["harness/py2v_proto.py: fail-closed extractor of the ask/tell protocol table (guard on _last_called evaluated first, state assigned right "
+                "after it) of Scheduler and BanditScheduler into Generated/ProtoGen.v on every run; Refine/ProtoRefine.v proves the models follow it",
+                "Model/Scheduler.v abstracts emitters (scripted answers, recorded arguments) and archives (list of accepted "
                 "insertion calls; the add feedback and validation failures are oracle inputs taken from the real archive)",
                 "candidate ids are encoded redundantly into every field by harness/c04_util.py; its decoder flags torn rows"],
     "level_text": "Theorems in coq/Properties/C04.v quantify over every number of emitters, every per-emitter batch size (0 "
@@ -449,6 +453,7 @@ def shrink(case, fails):
 
 
 def check(rep, tier, seed, driver):
+    py2v_proto.report(rep)
     from common import CORPUS
     rng = random.Random(seed)
     n = 260 if tier == "quick" else 4000
